@@ -110,7 +110,9 @@ impl BuildOptimiser {
     pub fn build(&self) -> MCOptimiser {
         let inner_steps = u64::min(self.inner_steps, self.steps);
         let kt_ratio = match (self.kt_ratio, self.kt_finish) {
-            (Some(ratio), _) => 1. - ratio,
+            // A ratio above one would make the factor, and with it the temperature, negative.
+            // Cooling by more than everything is cooling to zero.
+            (Some(ratio), _) => f64::max(0., 1. - ratio),
             // A temperature of zero has nothing to cool towards, the ratio of the temperatures
             // is not a number which would otherwise make the temperature not a number.
             // The temperature is reduced once every inner loop, so the number of reductions
